@@ -278,7 +278,7 @@ def run_shard(sh):
         for idx, (a, b) in enumerate(pairs):
             if idx % sh['nparts'] == sh['part']:
                 check_tuple(name, k, (a, b))
-        for _ in range(200 if sh['tier'] == 'quick' else 3000):
+        for _ in range(200 if sh['tier'] == 'quick' else 10000):
             n = rng2.randint(3, 8)
             check_tuple(name, k, tuple(rng2.choice(pool) for _ in range(n)))
         # unknown TLV between known ones
@@ -306,7 +306,7 @@ def run_shard(sh):
     # ---- attribute permutations of UPDATEs
     from yabgp.message.update import Update
     nperm = 0
-    for _ in range(400 if sh['tier'] == 'quick' else 4000):
+    for _ in range(400 if sh['tier'] == 'quick' else 20000):
         asn4 = rng2.random() < 0.5
         at = gen.std_attrs(rng2, asn4)
         if rng2.random() < 0.5:
